@@ -242,10 +242,10 @@ impl LazyCreateEdge {
             .with_context(|| "Evaluating edge sink".to_string().into())?;
         #[cfg(feature = "verif")]
         let verif_new = exec.graph[source].get_edge(sink).is_none();
-        let edge = match exec.graph[source].add_edge(sink) {
-            Ok(edge) | Err(edge) => edge,
-        };
-        edge.attributes = self.attributes.clone();
+        // creating an edge that already exists keeps the edge and its attributes
+        if let Ok(edge) = exec.graph[source].add_edge(sink) {
+            edge.attributes = self.attributes.clone();
+        }
         #[cfg(feature = "verif")]
         crate::verif::emit(|| {
             crate::verif::json!({"e": "edge", "src": source.index(), "dst": sink.index(), "new": verif_new})
